@@ -1,8 +1,12 @@
 ---- MODULE Trace_Framing ----
-(* Trace validation for C07.  One run = one connection fed with a scripted stream:                       *)
-(*   Stream{lens, maxlen, junk}  Read{n} (hook after conn.Read)  Pkg{len, id, uniform} (hook where the    *)
-(*   packet is handed to the protocol layer; id = index the harness wrote into every payload byte)        *)
-(*   ParseError (hook)  PeerSawClose / PeerStillOpen / OtherConnOk (harness observations)  End            *)
+(* Trace validation for C07.  One run = one or more successive connections of one receiver (the same    *)
+(* client object reconnecting; the same server), each fed with a scripted stream:                        *)
+(*   Stream{lens, maxlen, junk, conn}  Read{n} (hook after conn.Read)  Pkg{len, id, uniform} (hook where   *)
+(*   the packet is handed to the protocol layer; id = index the harness wrote into every payload byte)    *)
+(*   ParseError (hook)  Pause{ms} (the peer was silent for longer than the receiver's read timeout, after  *)
+(*   the receiver had dealt with what it had read)  Cut{sent} (the peer closed the connection after sent   *)
+(*   bytes of its stream, possibly inside a packet; the next event is the Stream of the next connection)  *)
+(*   PeerSawClose / PeerStillOpen / OtherConnOk (harness observations)  End                               *)
 EXTENDS Framing, Json
 VARIABLE l
 EmptyChoice == {<<>>}
@@ -10,14 +14,23 @@ Trace == ndJsonDeserialize("trace.ndjson")
 tvars == <<vars, l>>
 TraceInit == Init /\ l = 1
 IsEvent(e) == l <= Len(Trace) /\ Trace[l].e = e /\ l' = l + 1
+PrevEvent == IF l = 1 THEN "" ELSE Trace[l - 1].e
+\* a stream starts a run (first event, or after the End of the previous run) or follows the Cut of the previous connection
 TStream == /\ IsEvent("Stream")
-           /\ lens' = Trace[l].lens /\ maxLen' = Trace[l].maxlen
+           /\ IF PrevEvent \in {"", "End"} THEN Trace[l].conn = 1
+              ELSE PrevEvent = "Cut" /\ pc = "dead" /\ Trace[l].conn = conn
+           /\ lens' = Trace[l].lens /\ maxLen' = Trace[l].maxlen /\ junk' = Trace[l].junk /\ conn' = Trace[l].conn
            /\ delivered' = 0 /\ consumed' = 0 /\ nout' = 0 /\ pc' = "reading" /\ closed' = FALSE
 TRead == IsEvent("Read") /\ Deliver(Trace[l].n)
 \* the packet handed out is exactly the next packet of the stream: its length, its index in every payload byte
 TPkg == /\ IsEvent("Pkg") /\ ScanFull
         /\ Trace[l].len = lens[nout + 1] /\ Trace[l].id = nout + 1 /\ Trace[l].uniform
 TParseError == IsEvent("ParseError") /\ ScanError
+\* the read deadline passed while the peer was silent: whatever part of a packet was buffered is still there afterwards
+TPause == IsEvent("Pause") /\ Timeout
+\* the connection was cut after the receiver had read what was sent (or had given up on it after a protocol error) and had handed out
+\* everything complete in it; what is left of a packet cut short dies with the connection (Cut resets the positions)
+TCut == IsEvent("Cut") /\ (closed \/ delivered = Trace[l].sent) /\ Cut
 TPeerSawClose == IsEvent("PeerSawClose") /\ closed /\ UNCHANGED vars
 TPeerStillOpen == IsEvent("PeerStillOpen") /\ ~closed /\ UNCHANGED vars
 TOtherConnOk == IsEvent("OtherConnOk") /\ UNCHANGED vars
@@ -25,7 +38,7 @@ TOtherConnOk == IsEvent("OtherConnOk") /\ UNCHANGED vars
 TEnd == /\ IsEvent("End") /\ nout = FirstBad - 1 /\ (FirstBad <= Len(lens) => closed)
         /\ pc \in {"reading", "closed"} /\ UNCHANGED vars
 TSilent == ScanLess /\ UNCHANGED l
-TraceNext == TStream \/ TRead \/ TPkg \/ TParseError \/ TPeerSawClose \/ TPeerStillOpen \/ TOtherConnOk \/ TEnd \/ TSilent
+TraceNext == TStream \/ TRead \/ TPkg \/ TParseError \/ TPause \/ TCut \/ TPeerSawClose \/ TPeerStillOpen \/ TOtherConnOk \/ TEnd \/ TSilent
 TraceSpec == TraceInit /\ [][TraceNext]_tvars
 ASSUME TLCSet(1, 0)
 HighWater == (IF l > TLCGet(1) THEN TLCSet(1, l) ELSE TRUE)
